@@ -121,6 +121,7 @@ class ScriptedApps:
         self.bodies = {}  # inst -> bytearray of received http.request bodies
         self.recvs = {}  # inst -> list of received messages (full)
         self.scopes = {}
+        self.ended = {}  # inst -> the request body end (or a disconnect) has been received
 
     def pick(self, scope, inst):
         apps = self.apps
@@ -183,6 +184,10 @@ class ScriptedApps:
         self.recvs[inst].append(m)
         if isinstance(m, dict) and m.get("type") == "http.request":
             self.bodies[inst] += m.get("body", b"")
+            if not m.get("more_body", False):
+                self.ended[inst] = True
+        elif isinstance(m, dict) and m.get("type") in ("http.disconnect", "websocket.disconnect"):
+            self.ended[inst] = True
         self.trace.ev("app", "recv", inst=inst, msg=_msg_summary(m))
         return m
 
@@ -206,7 +211,7 @@ class ScriptedApps:
                 for _ in range(step[1]):
                     await self._recv(receive, inst)
             elif op == "recv_until_end":
-                while True:
+                while not self.ended.get(inst):
                     m = await self._recv(receive, inst)
                     t = m.get("type")
                     if t in ("http.disconnect", "websocket.disconnect"):
